@@ -211,9 +211,14 @@ def _threaded_maps(seed, n, nk, nth, workers):
             a += np.maximum(0, amp - 0.4 * (np.abs(ii - ci) + dj) ** 2)
         specs.append(np.ascontiguousarray(a + rng.randint(0, 3, size=a.shape), dtype="float32"))
     serial = [specpart.partition(x, 100) for x in specs]
+    def one(x):
+        try:
+            return specpart.partition(x, 100)
+        except BaseException as ex:  # noqa  (an exception out of the routine under concurrency is an outcome, not a harness failure)
+            return "%s: %s" % (type(ex).__name__, str(ex)[:80])
     with ThreadPoolExecutor(max_workers=workers) as ex:
-        par = list(ex.map(lambda x: specpart.partition(x, 100), specs * 3))
-    bad = sum(1 for k, m in enumerate(par) if not np.array_equal(m, serial[k % n]))
+        par = list(ex.map(one, specs * 3))
+    bad = sum(1 for k, m in enumerate(par) if isinstance(m, str) or not np.array_equal(m, serial[k % n]))
     return bad, len(par)
 
 
